@@ -5,7 +5,7 @@ use crate::suggestion::{Rank, Suggestion};
 use crate::utility::{get_modifiers, smart_quoter, SplittedString, Utility};
 use crate::{context::Method, data::Data, keycodes::keycode_to_char};
 
-const MARKS: &str = "`~!@#$%^+*-_=+\\|\"/;:,./?><()[]{}";
+const MARKS: &str = "`~!@#$%^&+*-_=+\\|'\"/;:,./?><()[]{}";
 
 enum PendingKar {
     I,
@@ -328,6 +328,7 @@ impl FixedMethod {
                         B_U_KAR => self.buffer.push(B_U),
                         B_UU_KAR => self.buffer.push(B_UU),
                         B_RRI_KAR => self.buffer.push(B_RRI),
+                        B_VOCALIC_RR => self.buffer.push(B_SANSKRIT_RR),
                         B_E_KAR => self.buffer.push(B_E),
                         B_OI_KAR => self.buffer.push(B_OI),
                         B_O_KAR => self.buffer.push(B_O),
@@ -365,6 +366,10 @@ impl FixedMethod {
                         B_RRI_KAR => {
                             self.buffer.pop();
                             self.buffer.push(B_RRI);
+                        }
+                        B_VOCALIC_RR => {
+                            self.buffer.pop();
+                            self.buffer.push(B_SANSKRIT_RR);
                         }
                         B_E_KAR => {
                             self.buffer.pop();
